@@ -330,6 +330,11 @@ func handleLMove(params internal.HandlerFuncParams) ([]byte, error) {
 		return nil, errors.New("both source and destination must be lists")
 	}
 
+	// A list can be empty after its last element has been popped or removed: there is nothing to move.
+	if len(sourceList) == 0 {
+		return nil, errors.New("source list is empty")
+	}
+
 	// Take the element off the requested end of the source list.
 	var element string
 	var newSource []string
